@@ -1,7 +1,8 @@
 """C13 -- output reaches each destination completely, in order, exactly once.
 
 spec/IOStreams.tla (shared with C12) + spec/StdoutShare.tla.  MC_IOStreams with Sandbox = FALSE (delivery
-invariants, failing stdout writer), StdoutShare (serialised variant must satisfy NoLostUpdate/AtMostOneInside,
+invariants, failing stdout writer in every output mode, a system() child that shows a file the program is
+writing, close() of a command that never reads its input), StdoutShare (serialised variant must satisfy NoLostUpdate/AtMostOneInside,
 the unserialised variant must violate NoLostUpdate -- the schedule then provoked on the real code through a gate
 writer), Gen_IOStreams families "delivery" and "failure", Trace_IOStreams on recorded runs.
 """
@@ -10,16 +11,25 @@ from vlib import MachineryError
 import iocommon
 
 
-def sample_procs(ctx, src, dst, keep_short, frac):
+NEW_CMDS = ('exit3', 'showf1')
+
+
+def sample_procs(ctx, src, dst, keep_short, frac, frac_new=None):
     """Process starts dominate the replay time: keep every history without a child process, every history with
-    at most `keep_short` actions, and a seeded sample of the longer ones that start processes."""
+    at most `keep_short` actions, and a seeded sample of the longer ones that start processes (frac_new: the
+    sampling rate of those that start one of the newer commands, exit3 / showf1)."""
     rnd = random.Random(ctx.seed)
+    frac_new = frac if frac_new is None else frac_new
     n = k = 0
     with open(ctx.path(src)) as f, open(ctx.path(dst), 'w') as g:
         for line in f:
             n += 1
             d = json.loads(line)
-            if not d['pred']['starts'] or len(d['acts']) <= keep_short or rnd.random() < frac:
+            st = d['pred']['starts']
+            fr = frac_new if any(c in NEW_CMDS for c in st) else frac
+            if iocommon.has_nonreader_close(d):
+                fr = max(fr, 0.1)       # close() of the command that never reads: few histories, one process each
+            if not st or len(d['acts']) <= keep_short or rnd.random() < fr:
                 g.write(line)
                 k += 1
     ctx.log(f'{src}: {k} of {n} exported histories kept for replay')
@@ -54,32 +64,50 @@ def race_instrument(ctx):
 def run(ctx):
     q = ctx.quick
     ctx.rule = ('a case is one run: a history of 1-3 (thorough: 4) actions (print/printf to stdout, > and >> files, | cat and '
-                '| sh -c "cat; exit 3", "-", /dev/stdout, /dev/stderr, close, fflush, system, getline from files/commands, file '
-                'operand) ending normally, by exit or by a run-time error, exported by TLC from Gen_IOStreams with the predicted '
-                'file contents, close() values and the set of allowed standard outputs; or such a history with the stdout '
-                'writer failing at byte k (plain / bufio); or a write-level schedule of StdoutShare; or a random run recorded '
-                'from the real interpreter; non-trivial when it writes to a file, a command or an alias of stdout')
+                '| sh -c "cat; exit 3", | a command that closes its input at once and exits 3, "-", /dev/stdout, /dev/stderr, close, '
+                'fflush, system(cat), system(cat f1) -- a child that shows a file the program may hold unflushed output for --, '
+                'getline from files/commands, file operand) ending normally, by exit or by a run-time error, exported by TLC from '
+                'Gen_IOStreams with the predicted file contents, close() values and the set of allowed standard outputs (a system() '
+                'child\'s output lies exactly between the program\'s output before and after the call); or a history of print / '
+                'printf / print with two arguments to stdout and its aliases, in default, CSV and TSV output mode, with Config.Output '
+                'a plain writer or a *bufio.Writer of 3, 16 or 4096 bytes (quick: 9 of the 12 mode x writer combinations), failing at byte k for every k (only "the run fails" is '
+                'judged) or never failing (everything must arrive); or a write-level schedule of StdoutShare; or a random run '
+                'recorded from the real interpreter; non-trivial when it writes to a file, a command or an alias of stdout')
     ctx.assumptions += iocommon.ASSUMPTIONS + [
         'cat echoes its input; the order of a running child\'s output relative to the program\'s later writes is left open '
         'until close(): every interleaving that keeps each stream\'s order and the start/close window is accepted',
-        'with a failing stdout writer only "the run returns an error" is judged',
-        'histories that start processes are sampled (a process start costs ~100 ms here): all with <= 2 actions plus a seeded 3% (quick) / 5% (thorough) of the 3-action ones, 3% of the 4-action ones, 30% of the random walks; histories without a child process are replayed exhaustively',
+        'with a failing stdout writer only "the run returns an error" is judged; a run that succeeds although the writer failed is '
+        'classified by where the failing write happened: "plain[-csv-output|-tsv-output]" (unbuffered writer), '
+        '"<bufio kind>-write-failed-in-print" (the underlying write failed while a print statement was being executed: that '
+        'statement must return the error) or "buffered" (the failing write was a flush at fflush() or at the end of the run: the '
+        'listed finding F10)',
+        'system(cat f1): the model says the child sees every byte the program has written to f1 so far (system() flushes every open '
+        'output stream before it starts the child) and that the child\'s output precedes everything the program writes afterwards',
+        'close() of a command that never reads its input must wait for it and return its exit status (3); what was written to it is '
+        'discarded; stderr and the error outcome of such runs are not judged; nothing is said about the implicit close at the end',
+        'histories that start processes are sampled (a process start costs ~100 ms here): all with <= 2 actions plus a seeded 3% (quick) / 5% (thorough) of the 3-action ones (1.2% / 3% of those that start the command that never reads or the file-showing system() child, but 10% of those that close() the former), 3% (0.6%) of the 4-action ones, 30% of the random walks; histories without a child process are replayed exhaustively',
         'gate writer: the first writer is parked for up to 2.5 s; a second writer that needs longer to show up is missed '
         '(missed detection only, never an alarm)',
     ]
     ctx.build()
     # 1. model
-    mc = ctx.cfg('MC_IOStreams', constants={'Depth': 2 if q else 3, 'Sandbox': 'FALSE', 'FailMax': 1 if q else 3})
-    ctx.tlc('MC_IOStreams', mc, timeout=1500, heap='8g')
+    skip_model = bool(os.environ.get('VERIF_SKIP_MODEL'))   # development aid for mutant runs: the model does not depend on the code
+    if skip_model:
+        ctx.notes.append('model runs skipped (VERIF_SKIP_MODEL)')
+    else:
+        mc = ctx.cfg('MC_IOStreams', constants={'Depth': 2 if q else 3, 'Sandbox': 'FALSE', 'FailMax': 1 if q else 3, 'MaxRuns': 1,
+                                                'Modes': '{"default", "csv"}' if q else '{"default", "csv", "tsv"}'})
+        ctx.tlc('MC_IOStreams', mc, timeout=1500, heap='8g')
     ctx.tlc('StdoutShare', 'StdoutShare', timeout=300, capture='share.ndjson', label='StdoutShare(serialised)')
-    unser = ctx.cfg('StdoutShare', name='StdoutShare_unser', constants={'Serialised': 'FALSE'}, drop=['INVARIANTS'],
-                    add='INVARIANTS NoLostUpdate')
-    r = ctx.tlc('StdoutShare', unser, timeout=300, allow_fail=True, label='StdoutShare(unserialised)')
-    log = open(r['log']).read()
-    if 'Invariant NoLostUpdate is violated' not in log:
-        raise MachineryError('StdoutShare: the unserialised variant does not exhibit the lost update; the model does not discriminate')
-    ctx.notes.append('StdoutShare with Serialised = FALSE violates NoLostUpdate as intended (candidate schedule: both writers '
-                     'inside Write at once); it is only a candidate until the gate writer reproduces it on the real code')
+    if not skip_model:
+        unser = ctx.cfg('StdoutShare', name='StdoutShare_unser', constants={'Serialised': 'FALSE'}, drop=['INVARIANTS'],
+                        add='INVARIANTS NoLostUpdate')
+        r = ctx.tlc('StdoutShare', unser, timeout=300, allow_fail=True, label='StdoutShare(unserialised)')
+        log = open(r['log']).read()
+        if 'Invariant NoLostUpdate is violated' not in log:
+            raise MachineryError('StdoutShare: the unserialised variant does not exhibit the lost update; the model does not discriminate')
+        ctx.notes.append('StdoutShare with Serialised = FALSE violates NoLostUpdate as intended (candidate schedule: both writers '
+                         'inside Write at once); it is only a candidate until the gate writer reproduces it on the real code')
     # de-duplicate scenario lines (ASSUME is evaluated by both runs only once each; keep distinct)
     seen, lines = set(), []
     for l in open(ctx.path('share.ndjson')):
@@ -88,24 +116,40 @@ def run(ctx):
             lines.append(l)
     open(ctx.path('share.ndjson'), 'w').writelines(lines)
     # 2. spec -> code
-    gen = ctx.cfg('Gen_IOStreams', name='Gen_delivery', constants={'Family': '"delivery"', 'Depth': 3, 'Rich': 1 if q else 2})
+    gen = ctx.cfg('Gen_IOStreams', name='Gen_delivery', constants={'Family': '"delivery"', 'Depth': 3, 'Rich': 1 if q else 2, 'Runs': 1})
     ctx.tlc('Gen_IOStreams', gen, capture='delivery_all.ndjson', timeout=900)
-    sample_procs(ctx, 'delivery_all.ndjson', 'delivery.ndjson', 3, 0.03 if q else 0.05)
+    sample_procs(ctx, 'delivery_all.ndjson', 'delivery.ndjson', 3, 0.03 if q else 0.05, 0.012 if q else 0.03)
     if not q:
-        gen4 = ctx.cfg('Gen_IOStreams', name='Gen_delivery4', constants={'Family': '"delivery"', 'Depth': 4, 'Rich': 0})
+        gen4 = ctx.cfg('Gen_IOStreams', name='Gen_delivery4', constants={'Family': '"delivery"', 'Depth': 4, 'Rich': 0, 'Runs': 1})
         ctx.tlc('Gen_IOStreams', gen4, capture='delivery4_all.ndjson', timeout=1500, heap='8g')
-        sample_procs(ctx, 'delivery4_all.ndjson', 'delivery4.ndjson', 0, 0.03)
-        sim = ctx.cfg('Gen_IOStreams', name='Gen_delivery_sim', constants={'Family': '"delivery"', 'Depth': 8, 'Rich': 2})
+        sample_procs(ctx, 'delivery4_all.ndjson', 'delivery4.ndjson', 0, 0.03, 0.006)
+        sim = ctx.cfg('Gen_IOStreams', name='Gen_delivery_sim', constants={'Family': '"delivery"', 'Depth': 8, 'Rich': 2, 'Runs': 1})
         ctx.tlc('Gen_IOStreams', sim, capture='delivery_sim_all.ndjson', simulate=400, depth=10, workers=1, timeout=600)
         sample_procs(ctx, 'delivery_sim_all.ndjson', 'delivery_sim.ndjson', 0, 0.3)
     ctx.cov['exhaustive'] = True
-    iocommon.replay(ctx, 'delivery.ndjson', 'delivery', iocommon.corrupt, 2000)
+    sd = iocommon.replay(ctx, 'delivery.ndjson', 'delivery', iocommon.corrupt, 2000)
+    # the newer parts of the model must be present among the replayed histories, and bound
+    nnew = iocommon.split_cases(ctx, 'delivery.ndjson', 'delivery_new.ndjson',
+                                lambda c: iocommon.has_sys_child(c) or iocommon.has_nonreader_close(c))
+    nsys = iocommon.split_cases(ctx, 'delivery.ndjson', 'delivery_sys.ndjson', iocommon.has_sys_child)
+    nclose = iocommon.split_cases(ctx, 'delivery.ndjson', 'delivery_nrclose.ndjson', iocommon.has_nonreader_close)
+    if nsys < 20 or nclose < 3:
+        raise MachineryError(f'delivery: only {nsys} histories with a system() child showing a file and {nclose} closing a '
+                             f'command that never reads were kept for replay')
+    ctx.log(f'delivery.ndjson: {nsys} histories with a system() child that shows f1, {nclose} with close() of a command that never reads')
+    if all(sig in iocommon.known_sigs(ctx) for sig in sd['sig_counts']):
+        ctx.selftest(ctx.path('delivery_new.ndjson'), ctx.pid, iocommon.corrupt_new_delivery, 'delivery-system-child-and-nonreader')
     if not q:
         iocommon.replay(ctx, 'delivery4.ndjson', 'delivery-depth4', iocommon.corrupt, 2000)
         iocommon.replay(ctx, 'delivery_sim.ndjson', 'delivery-walks', iocommon.corrupt, 200)
-    fail = ctx.cfg('Gen_IOStreams', name='Gen_failure', constants={'Family': '"failure"', 'Depth': 2 if q else 3, 'Rich': 1})
+    fail = ctx.cfg('Gen_IOStreams', name='Gen_failure', constants={'Family': '"failure"', 'Depth': 2 if q else 3, 'Rich': 1 if q else 2, 'Runs': 1})
     ctx.tlc('Gen_IOStreams', fail, capture='failure.ndjson', timeout=900)
-    iocommon.replay(ctx, 'failure.ndjson', 'stdout-failure', iocommon.corrupt_failure, 200)
+    sf = iocommon.replay(ctx, 'failure.ndjson', 'stdout-failure', iocommon.corrupt_failure, 200)
+    ncsv = iocommon.split_cases(ctx, 'failure.ndjson', 'failure_csv.ndjson', lambda c: c['cfg']['omode'] != 'default')
+    if ncsv < 200:
+        raise MachineryError(f'stdout-failure: only {ncsv} histories in CSV / TSV output mode')
+    if all(sig in iocommon.known_sigs(ctx) for sig in sf['sig_counts']):
+        ctx.selftest(ctx.path('failure_csv.ndjson'), ctx.pid, iocommon.corrupt_failure, 'stdout-failure-csv-tsv')
     iocommon.replay(ctx, 'share.ndjson', 'shared-stdout', iocommon.corrupt_share, 3)
     if not q:
         race_instrument(ctx)
